@@ -12,13 +12,28 @@ let md (m : SdpFrag.md) =
   String.concat "|" [ hex_of_bytes m.md_mline; hex_of_bytes m.md_mid; hex_of_bytes m.md_ufrag; hex_of_bytes m.md_pwd; cands m.md_cands ]
 let mds l = if l = [] then "-" else String.concat ";" (List.map md l)
 
+(* marshal <hexbody> | ufragpwd <hexbody> | allcands <hexbody>: Marshal, UFragPwd
+   and AllCandidates of the fragment parsed from the body
+   => <hex> | <ufrag> <pwd> | <cands>        ("nofrag": the body does not parse).
+   The driver sends them right after the unmarshal op of the same body: the
+   last parse is kept, so that the body is parsed once. *)
 let comp_sdpfrag : comp = fun _ ->
+  let last = ref ("", SdpFrag.RErr) in
+  let parse data =
+    if not (String.equal (fst !last) data) then
+      last := (data, SdpFrag.unmarshal (bytes_of_hex data));
+    snd !last in
+  let with_frag data g = match parse data with SdpFrag.ROk f -> g f | _ -> "nofrag" in
   fun toks ->
     match toks with
     | ["unmarshal"; data] ->
-       (match SdpFrag.unmarshal (bytes_of_hex data) with
+       (match parse data with
         | SdpFrag.ROk f -> String.concat " " [ "ok"; hex_of_bytes f.f_ufrag; hex_of_bytes f.f_pwd; cands f.f_cands; mds f.f_mds ]
         | SdpFrag.RErr -> "err"
         | SdpFrag.RPanic -> "PANIC")
+    | ["marshal"; data] -> with_frag data (fun f -> hex_of_bytes (SdpFrag.marshal f))
+    | ["ufragpwd"; data] ->
+       with_frag data (fun f -> let (u, p) = SdpFrag.ufrag_pwd f in hex_of_bytes u ^ " " ^ hex_of_bytes p)
+    | ["allcands"; data] -> with_frag data (fun f -> cands (SdpFrag.all_candidates f))
     | _ -> failwith "sdpfrag: bad op"
 let init () = register "sdpfrag" comp_sdpfrag
